@@ -12,6 +12,7 @@
  *               D<hex> include disk (filter_alloc_disk, as snapraid.c:624)
  *   skip <nohidden> <isdir> <name> <disk> <dir> <sub> <rule|c<hex>>...   -> 0 | 1
  *        the three tests of scan_sub (scan.c:1318,1324,1437/1491) in their order; c<hex> = a content file path
+ *   why  <same arguments as skip>         -> 0 | h (hidden) | c (content) | r<i> (excluded, reason = rule i) | r-
  */
 #include "cmdline/portable.h"
 #include "cmdline/support.h"
@@ -135,7 +136,8 @@ int main(void)
 			destroy(&fl, &cl);
 			free(disk);
 			free(sub);
-		} else if (strcmp(tok[0], "skip") == 0 && n >= 7) {
+		} else if ((strcmp(tok[0], "skip") == 0 || strcmp(tok[0], "why") == 0) && n >= 7) {
+			int why = tok[0][0] == 'w';
 			tommy_list fl, cl;
 			int nohidden = atoi(tok[1]);
 			int isdir = atoi(tok[2]);
@@ -162,7 +164,21 @@ int main(void)
 					r = filter_subdir(&fl, &reason, disk, sub) != 0;
 				else
 					r = filter_path(&fl, &reason, disk, sub) != 0;
-				printf("%d\n", r);
+				if (!why) {
+					printf("%d\n", r);
+				} else if (!r) {
+					printf("0\n");
+				} else if (filter_hidden(nohidden, &dd) != 0) {
+					printf("h\n");
+				} else if (filter_content(&cl, path) != 0) {
+					printf("c\n");
+				} else {
+					int idx = 0, found = -1;
+					tommy_node* i;
+					for (i = tommy_list_head(&fl); i != 0; i = i->next, ++idx)
+						if (i->data == reason) found = idx;
+					if (found >= 0) printf("r%d\n", found); else printf("r-\n");
+				}
 			}
 			destroy(&fl, &cl);
 			free(name);
